@@ -46,6 +46,8 @@ def _name_failure(fit, st, ev):
     """name the conjunct of the Prop layer that the rejected event violates (naming only: the verdict is TLC's)"""
     n = fit["n"]
     e = ev.get("e")
+    if e == "Diverge":
+        return "no-convergence", "NIPALS loop of %s did not converge within %s iterations (component %s)" % (ev.get("site"), ev.get("it"), ev.get("comp"))
     if e == "Abort":
         return ("no-convergence" if ev.get("why") == "iteration-budget" else "crash:%s" % ev.get("why")), \
                "fit did not finish (%s, rc=%s)" % (ev.get("why"), ev.get("rc"))
@@ -227,8 +229,11 @@ def _validate(ctx, chunks, label, max_rounds):
 
 
 def _binding(ctx, chunks):
-    blocks = [b for b in tlc.split_blocks(chunks[0]) if any(e["e"] == "Back" for e in b)][:20]
+    blocks = [b for ch in chunks[:3] for b in tlc.split_blocks(ch) if any(e["e"] == "Back" for e in b)][:20]
     ev = [e for b in blocks for e in b]
+    if not any(e["e"] == "Extract" for e in ev) and ctx.violations:
+        ctx.note("binding self-test skipped: no completed fit in the recording (violations reported above)")
+        return
 
     def corrupt(evs):
         for e in evs:
